@@ -806,9 +806,9 @@ def _norm(x, ord=None, axis=None, keepdims=False):
         return e * e
     s = _np.frompyfunc(sq, 1, 1)(a)
     tot = s.sum(axis=axis)
+    if axis is None and isinstance(tot, R) and tot.q is None and a.size:
+        return _NormR(tot, list(a.flat))      # SQRT term only built when the value itself is used
     r = sqrt(tot)
-    if axis is None and isinstance(r, R) and r.q is None and a.size:
-        return _NormR(r, list(a.flat))
     return r
 
 
@@ -816,17 +816,29 @@ class _NormR(R):
     """Euclidean norm that remembers its entries: comparisons with the constant 0 are stated on the
     entries (|x| == 0  <=>  every entry is 0) instead of on SQRT(sum of squares), which keeps the
     zero-vector tests of the code under test linear.  Any arithmetic gives a plain R."""
-    __slots__ = ("elems",)
+    __slots__ = ("elems", "_tot")
 
-    def __init__(self, r, elems):
-        R.__init__(self, q=r.q, n=r._n, d=r.d)
+    def __init__(self, tot, elems):
+        R.__init__(self, q=None, n=None, d=())
         self.elems = elems
+        self._tot = tot
+
+    @property
+    def n(self):
+        if self._n is None:
+            self._n = sqrt(self._tot).n       # SQRT(sum of squares) with its ground axioms, on demand
+        return self._n
 
     def _rel(self, o, op):
         o2 = R.of(o)
         if o2 is not None and o2.q is not None and o2.q == 0 and op in ("eq", "ne", "le", "gt"):
             ts = []
+            kn = _ctx.current().known_nonzero if _ctx.has_current() else ()
             for e in self.elems:
+                # an entry that is a symbol assumed non-zero (sym(..., nonzero/positive=True)) decides the test
+                for part in ((e.re, e.im) if isinstance(e, C) else (e,)):
+                    if isinstance(part, R) and part.q is None and not part.d and part.n.get_id() in kn:
+                        return op in ("ne", "gt")
                 z = (e == 0)
                 if isinstance(z, (bool, _np.bool_)):
                     if not z:
